@@ -274,9 +274,14 @@ impl<R: Reader> RangeLists<R> {
             .checked_mul(u64::from(format.word_size()))
             .ok_or_else(|| Error::UnexpectedEof(input.offset_id()))?;
         input.skip(R::Offset::from_u64(offset)?)?;
-        input
-            .read_offset(format)
-            .map(|x| RangeListsOffset(base.0 + x))
+        let offset = input.read_offset(format)?;
+        // The offset is relative to the base. It comes from the input, so the sum may overflow.
+        let offset = base
+            .0
+            .into_u64()
+            .checked_add(offset.into_u64())
+            .ok_or(Error::UnsupportedOffset)?;
+        R::Offset::from_u64(offset).map(RangeListsOffset)
     }
 
     /// Call `Reader::lookup_offset_id` for each section, and return the first match.
